@@ -102,3 +102,156 @@ fn w_routing_c10() {
 fn w_routing_c11() {
     routing(false, true)
 }
+
+// ------------------------------------------------------------------------------------------
+// C14: the real streaming `deflate()` against a contract stub of the core `compress`.
+use miniz_oxide::deflate::stream::deflate;
+use miniz_oxide::{MZError, MZFlush, MZStatus};
+
+pub static mut K_CALLS: usize = 0;
+pub static mut K_FINISH_SEEN: bool = false;
+
+fn set_prev(d: &mut CompressorOxide, st: TDEFLStatus) {
+    let mut s = d.verif_scalars();
+    s.prev_return_status = st;
+    d.verif_set_scalars(&s);
+}
+
+/// Contract K1-K5 (DESIGN.md §5.0) for `deflate::core::compress` with a buffer sink.
+pub fn compress_contract(
+    d: &mut CompressorOxide,
+    in_buf: &[u8],
+    out_buf: &mut [u8],
+    flush: TDEFLFlush,
+) -> (TDEFLStatus, usize, usize) {
+    unsafe { K_CALLS += 1 };
+    let finish = flush == TDEFLFlush::Finish;
+    // K2: a previous non-Okay status, or a non-Finish request after Finish, is refused
+    if d.prev_return_status() != TDEFLStatus::Okay || (unsafe { K_FINISH_SEEN } && !finish) {
+        set_prev(d, TDEFLStatus::BadParam);
+        return (TDEFLStatus::BadParam, 0, 0);
+    }
+    if finish {
+        unsafe { K_FINISH_SEEN = true };
+    }
+    let in_pos: usize = kani::any();
+    let out_pos: usize = kani::any();
+    let done: bool = kani::any();
+    kani::assume(in_pos <= in_buf.len() && out_pos <= out_buf.len()); // K1
+    if done {
+        // K3: Done only on a Finish request, with all input taken
+        kani::assume(finish && in_pos == in_buf.len());
+    } else if !in_buf.is_empty() || flush != TDEFLFlush::None {
+        // K5: when there is something to do and output space, something moves
+        if !out_buf.is_empty() {
+            kani::assume(in_pos > 0 || out_pos > 0);
+        }
+        if finish {
+            // ... and with Finish the core stops short of Done only because the output is full
+            kani::assume(out_pos == out_buf.len());
+        }
+    }
+    let st = if done { TDEFLStatus::Done } else { TDEFLStatus::Okay };
+    set_prev(d, st);
+    (st, in_pos, out_pos)
+}
+
+fn mzflush_from(n: u8) -> MZFlush {
+    match n {
+        0 => MZFlush::None,
+        1 => MZFlush::Sync,
+        2 => MZFlush::Full,
+        3 => MZFlush::Finish,
+        _ => MZFlush::Partial,
+    }
+}
+
+struct DTrack {
+    ended: bool,
+    finish_seen: bool,
+    errored: bool,
+}
+
+fn deflate_call(c: &mut CompressorOxide, t: &mut DTrack) {
+    let input: [u8; 2] = kani::any();
+    let mut output = [0u8; 3];
+    let n_in: usize = kani::any();
+    let n_out: usize = kani::any();
+    kani::assume(n_in <= 2 && n_out <= 3);
+    let fl: u8 = kani::any();
+    kani::assume(fl < 5);
+    let flush = mzflush_from(fl);
+    let prev = c.prev_return_status();
+    let calls = unsafe { K_CALLS };
+    let r = deflate(c, &input[..n_in], &mut output[..n_out], flush);
+    assert!(r.bytes_consumed <= n_in && r.bytes_written <= n_out);
+    if n_out == 0 {
+        // an empty output buffer is refused without side effects
+        assert!(r.status == Err(MZError::Buf) && r.bytes_consumed == 0 && r.bytes_written == 0);
+        assert!(c.prev_return_status() == prev && unsafe { K_CALLS } == calls);
+        return;
+    }
+    if t.ended {
+        // after the end: Finish keeps returning stream-end with nothing written, anything else is a buffer error
+        assert!(r.bytes_consumed == 0 && r.bytes_written == 0);
+        assert!(r.status == if fl == 3 { Ok(MZStatus::StreamEnd) } else { Err(MZError::Buf) });
+        assert!(unsafe { K_CALLS } == calls);
+        return;
+    }
+    if t.errored {
+        assert!(r.status == Err(MZError::Param));
+        return;
+    }
+    if t.finish_seen && fl != 3 {
+        // a non-Finish call after Finish is an error, not a corrupted stream
+        assert!(r.status == Err(MZError::Param));
+        assert!(r.bytes_consumed == 0 && r.bytes_written == 0);
+        t.errored = true;
+        return;
+    }
+    match r.status {
+        Ok(MZStatus::StreamEnd) => {
+            assert!(fl == 3);
+            assert!(c.prev_return_status() == TDEFLStatus::Done);
+            assert!(r.bytes_consumed == n_in);
+            t.ended = true;
+        }
+        Ok(MZStatus::Ok) => {
+            if fl == 3 {
+                // Finish keeps working until the stream ends or the output is completely full
+                assert!(r.bytes_written == n_out);
+            } else {
+                // input (or a flush request) and output space => progress
+                assert!(r.bytes_consumed > 0 || r.bytes_written > 0 || fl != 0);
+                assert!(r.bytes_consumed == n_in || r.bytes_written == n_out);
+            }
+        }
+        Err(MZError::Buf) => {
+            // only "nothing to do": no input, no flush request, nothing moved
+            assert!(fl == 0 && n_in == 0 && r.bytes_consumed == 0 && r.bytes_written == 0);
+        }
+        _ => assert!(false),
+    }
+    if fl == 3 {
+        t.finish_seen = true;
+    }
+    kani::cover!(r.status == Ok(MZStatus::StreamEnd));
+    kani::cover!(r.status == Ok(MZStatus::Ok) && fl == 3);
+    kani::cover!(r.status == Err(MZError::Buf));
+}
+
+/// C14: every sequence of three deflate() calls on a fresh compressor, any core behaviour within K1-K5.
+#[kani::proof]
+#[kani::unwind(8)]
+#[kani::stub(dcore::compress, compress_contract)]
+fn w_deflate_seq3() {
+    unsafe {
+        K_CALLS = 0;
+        K_FINISH_SEEN = false;
+    }
+    let mut c = CompressorOxide::new(0x1000 | 128);
+    let mut t = DTrack { ended: false, finish_seen: false, errored: false };
+    deflate_call(&mut c, &mut t);
+    deflate_call(&mut c, &mut t);
+    deflate_call(&mut c, &mut t);
+}
